@@ -38,6 +38,7 @@ func runThorough(c *Ctx, w *World) {
 				}
 			}()
 			props[id](c2, w2)
+			reportCondErrors(c2)
 		}()
 		resetGlobals()
 		if w.gcp != nil {
